@@ -472,10 +472,22 @@ func Proto(r *rand.Rand, in []byte, donor []byte, cls string) (Mutant, bool) {
 		if s.node.IsMsg {
 			inner = Encode(s.node.Children)
 		}
+		// wrap `depth` times without re-copying the payload at every level:
+		// compute the length prefixes inside-out, then emit them outside-in
+		tag := protowire.AppendTag(nil, s.node.Num, protowire.BytesType)
+		lens := make([]int, depth)
+		cur := len(inner)
 		for i := 0; i < depth; i++ {
-			inner = protowire.AppendBytes(protowire.AppendTag(nil, s.node.Num, protowire.BytesType), inner)
+			lens[i] = cur
+			cur += len(tag) + protowire.SizeVarint(uint64(cur))
 		}
-		s.node.Bytes, s.node.IsMsg, s.node.Children = inner, false, nil
+		wrapped := make([]byte, 0, cur)
+		for i := depth - 1; i >= 0; i-- {
+			wrapped = append(wrapped, tag...)
+			wrapped = protowire.AppendVarint(wrapped, uint64(lens[i]))
+		}
+		wrapped = append(wrapped, inner...)
+		s.node.Bytes, s.node.IsMsg, s.node.Children = wrapped, false, nil
 		path = s.path
 	default:
 		return Mutant{}, false
